@@ -239,9 +239,7 @@ def forbidden_hits(path):
     return hits
 
 
-def run_driver(lines, which='model', timeout=3000, cluster='Z'):
-    """pipe JSON lines through the Lean driver of `cluster`; returns the list of decoded answers (one per line)"""
-    main = f'run/Model{cluster}.lean' if which == 'model' else f'run/Spec{cluster}.lean'
+def _run_driver_one(lines, main, timeout):
     data = '\n'.join(json.dumps(l, separators=(',', ':')) for l in lines) + '\n'
     p = subprocess.run(['lake', 'env', 'lean', '--run', main], cwd=LEAN, input=data, capture_output=True, text=True, timeout=timeout)
     if p.returncode != 0:
@@ -250,6 +248,28 @@ def run_driver(lines, which='model', timeout=3000, cluster='Z'):
     if len(outs) != len(lines):
         raise RuntimeError(f'driver answered {len(outs)} lines for {len(lines)} cases; stderr: {p.stderr[-500:]}')
     return outs
+
+
+def run_driver(lines, which='model', timeout=3000, cluster='Z'):
+    """pipe JSON lines through the Lean driver of `cluster`; returns the list of decoded answers (one per line).
+    The drivers answer every line on its own (Driver/Json.lean `loop`: no state between lines), so a long batch is cut into
+    contiguous chunks that run in parallel interpreter processes (VERIF_DRIVER_JOBS, default 6) and are concatenated in order."""
+    main = f'run/Model{cluster}.lean' if which == 'model' else f'run/Spec{cluster}.lean'
+    jobs = max(1, int(os.environ.get('VERIF_DRIVER_JOBS', '6') or 1))
+    size = sum(len(json.dumps(l)) for l in lines[:50]) * max(1, len(lines)) // max(1, min(50, len(lines)))
+    if jobs == 1 or len(lines) < 24 or size < 200000:
+        return _run_driver_one(lines, main, timeout)
+    k = min(jobs, len(lines) // 8)
+    # interleaved assignment balances families that come in blocks; answers are put back in order
+    idx = [list(range(i, len(lines), k)) for i in range(k)]
+    from concurrent.futures import ThreadPoolExecutor
+    with ThreadPoolExecutor(max_workers=k) as ex:
+        parts = list(ex.map(lambda ii: _run_driver_one([lines[i] for i in ii], main, timeout), idx))
+    out = [None] * len(lines)
+    for ii, part in zip(idx, parts):
+        for i, a in zip(ii, part):
+            out[i] = a
+    return out
 
 
 # ----------------------------------------------------------------------------------------------
